@@ -66,6 +66,8 @@ def _body(shard, *choices):
             def gen():
                 for i in range(nitems):
                     st["taken"].append((i, len(world.finished["k"])))
+                    if src.stopped:
+                        st["taken_while_stopped"] = True
                     yield i
             src = Stream.from_iterable(gen(), asynchronous=True, loop=world.io)
         else:
@@ -94,26 +96,39 @@ def _body(shard, *choices):
                 await orig_cycle()
             src._run = cycle_wrapper
 
+        fine = shard.get("fine", False)
+
+        def settle():
+            if not fine:
+                loop.run_ready()
+
         def extra(c):
+            if fine and c == 7:
+                if not loop.ready and loop.next_deadline() is None:
+                    return False
+                loop.run_one_iteration()
+                return True
             if c == 5:
                 before = (src.stopped, st["runs"])
                 was_started = not src.stopped
                 st["stopped_since"] = None
                 src.start()
-                loop.run_ready()
+                settle()
                 if was_started and st["runs"] != before[1]:
                     vd.add("start-on-started-not-a-noop@%s" % kind)
                 return True
             if c == 6:
                 was_stopped = src.stopped
                 src.stop()
-                loop.run_ready()
+                settle()
                 if not was_stopped:
                     st["stopped_since"] = loop.now
                 return True
             return False
         try:
-            run_schedule(world, choices, [], extra=extra, allowed=ALLOWED)
+            run_schedule(world, choices, [], extra=extra, allowed=ALLOWED + ((7,) if fine else ()), fine=fine)
+            if fine:
+                loop.run_ready()
         except Pruned:
             return vd.result()
         # ---- clauses over the whole history
@@ -134,6 +149,8 @@ def _body(shard, *choices):
         if st["cycles_after_stop"] > 0:
             vd.add("cycle-begins-after-stop@%s" % kind)
         if kind == "from_iterable":
+            if st.get("taken_while_stopped"):
+                vd.add("item-taken-while-stopped@from_iterable")
             for i, nfinished in st["taken"]:
                 if nfinished < i:
                     vd.add("took-next-before-downstream-finished@from_iterable")
@@ -154,4 +171,9 @@ def obligations(tier):
                          "body": "body", "pre": "pre",
                          "shard": {"kind": kind, "native": native, "items": 4 if q else 6},
                          "types": ["int"] * steps, "budget": 400 if q else 2400})
+    fsteps = 6 if q else 8
+    for kind in ("from_iterable", "from_periodic"):
+        obls.append({"name": "%s/fine/steps=%d" % (kind, fsteps), "body": "body", "pre": "pre",
+                     "shard": {"kind": kind, "native": False, "items": 4, "fine": True},
+                     "types": ["int"] * fsteps, "budget": 400 if q else 2400})
     return obls
